@@ -1,4 +1,4 @@
-import StepModel.P21.ReaderLemmas12
+import StepModel.P21.ReaderLemmas13
 import StepModel.Generated.P21RWGen
 /-! # C03 — the reader never reports a violating file as clean: property theorems
 
@@ -1237,6 +1237,86 @@ theorem C03_wrong_kind_for_aggregate_detected {F} (env : Env F) (strict : Bool) 
   have ha := attr_aggr_junk env strict a ety hty hder j0 t hj0s hj036 hj040 hj044 hj041 (before.reverse ++ l) sk
   rw [← hsep] at ha
   exact C03_attribute_error_reaches_instance env strict a rest err c _ r _ _ _ hred ha (by decide) h
+
+/-- **an integer token with something behind it for an INTEGER attribute** (`1.5`, `5X`, `12'a'`: a text that *starts like*
+    an integer): the integer is stored, what follows it - no digit, blank or `/` first, no `,` `)` `;` - is reported:
+    WARNING, the stream at the delimiter -/
+theorem C03_integer_with_trailing_garbage_detected {F} (env : Env F) (strict : Bool) (a : AttrD) (hty : a.ty = .one .integer)
+    (hder : a.derived = false) (hred : a.redefining = false)
+    (tok : List Byte) (htok : Grammar.isInteger tok = true) (hlo : IStream.longMin ≤ Grammar.denoteInteger tok)
+    (hhi : Grammar.denoteInteger tok < IStream.longMax)
+    (j0 : Byte) (js : List Byte) (hj0s : isSpace j0 = false) (hj047 : j0 ≠ 47) (hj0d : isDigit j0 = false)
+    (hj : ∀ b ∈ j0 :: js, delimAt env.lex attrDelims b = false)
+    (hsemi : env.lex.criStopsAtSemicolon = true → ∀ b ∈ j0 :: js, b ≠ 59) (before : List Byte) (hb : Seps before) :
+    ParamRd env strict { a := a, v := .one (.atom (.int (Grammar.denoteInteger tok))), tok := tok ++ j0 :: js,
+                         before := before, after := [] } .warning := by
+  obtain ⟨c, u, hcu, hcs, h47, _, h92⟩ := isInteger_head47 tok htok
+  refine ⟨hred, ⟨c, u ++ j0 :: js, by rw [hcu]; simp, hcs, h47, h92⟩, hb, fun l sk d rest hd => ⟨sk, Or.inl rfl, ?_⟩⟩
+  have h := attr_integer_then_junk env strict a hty hder tok htok hlo hhi j0 js hj0s hj047 hj0d hj hsemi l sk d rest hd
+  simpa [List.append_assoc] using h
+
+/-- elements that report nothing or WARNING accumulate to WARNING as soon as one of them reports -/
+theorem eaccum_warning (sevs : List Sev) (h : ∀ s ∈ sevs, s = .null ∨ s = .warning) :
+    ∀ err : Sev, (err = .null ∨ err = .warning) →
+      eaccum err sevs = (if err = .warning ∨ Sev.warning ∈ sevs then .warning else .null) := by
+  induction sevs with
+  | nil => intro err he; rcases he with rfl | rfl <;> simp [eaccum]
+  | cons s t ih =>
+    intro err he
+    have hs := h s (by simp)
+    have ht := ih (fun x hx => h x (by simp [hx]))
+    have s1 : (if Sev.null.toInt < Sev.incomplete.toInt then Sev.null.greater Sev.null else Sev.null) = Sev.null := by decide
+    have s2 : (if Sev.warning.toInt < Sev.incomplete.toInt then Sev.null.greater Sev.warning else Sev.null) = Sev.warning := by decide
+    have s3 : (if Sev.null.toInt < Sev.incomplete.toInt then Sev.warning.greater Sev.null else Sev.warning) = Sev.warning := by decide
+    have s4 : (if Sev.warning.toInt < Sev.incomplete.toInt then Sev.warning.greater Sev.warning else Sev.warning) = Sev.warning := by decide
+    rcases he with rfl | rfl <;> rcases hs with rfl | rfl
+    · have := ht .null (Or.inl rfl); simp only [eaccum, List.foldl_cons, s1] at this ⊢; simpa using this
+    · have := ht .warning (Or.inr rfl); simp only [eaccum, List.foldl_cons, s2] at this ⊢; simpa using this
+    · have := ht .warning (Or.inr rfl); simp only [eaccum, List.foldl_cons, s3] at this ⊢; simpa using this
+    · have := ht .warning (Or.inr rfl); simp only [eaccum, List.foldl_cons, s4] at this ⊢; simpa using this
+
+/-- **a violation inside an aggregate**: an aggregate attribute `( e₁ , … , eₙ )` every element of which is read where it
+    stands with severity NULL or WARNING (`ElemRdS`: conforming elements by `ElemRd`, violating ones by the element
+    theorems below), one of them with WARNING, any layout around every element and behind the aggregate: the attribute
+    reader reports WARNING, keeps every element's value and rests at the delimiter (`ParamRd`) - so by
+    `C03_violation_confined_partial` the record, the file and p21read's exit status are flagged and the other parameters
+    and records keep their values. -/
+theorem C03_violation_inside_aggregate_detected {F} (env : Env F) (strict : Bool) (a : AttrD) (ety : ElemTy)
+    (hty : a.ty = .aggr ety) (hder : a.derived = false) (hred : a.redefining = false)
+    (hcfg : env.lex.criSkipsComments = true) (hagg : env.cfg.aggrSkipsComments = true)
+    (qs : List (ElemG F × Sev)) (hok : ∀ q ∈ qs, ElemRdS env ety q.1 q.2)
+    (hnw : ∀ q ∈ qs, q.2 = .null ∨ q.2 = .warning) (hbad : ∃ q ∈ qs, q.2 = .warning)
+    (before after : List Byte) (hb : Seps before) (ha : Seps after) :
+    ParamRd env strict { a := a, v := .aggr (qs.map (·.1.v)), tok := 40 :: renderElemsG (qs.map (·.1)),
+                         before := before, after := after } .warning := by
+  have hne : qs ≠ [] := by obtain ⟨q, hq, _⟩ := hbad; intro h; rw [h] at hq; cases hq
+  have hacc : eaccum .null (qs.map (·.2)) = .warning := by
+    rw [eaccum_warning _ (by intro s hs; obtain ⟨q, hq, rfl⟩ := List.mem_map.mp hs; exact hnw q hq) .null (Or.inl rfl)]
+    obtain ⟨q, hq, hw⟩ := hbad
+    have : Sev.warning ∈ qs.map (·.2) := List.mem_map.mpr ⟨q, hq, hw⟩
+    simp [this]
+  refine ⟨hred, ⟨40, _, rfl, by decide, by decide, by decide⟩, hb, fun l sk d rest hd => ?_⟩
+  obtain ⟨sk', hsk, h⟩ := attr_aggr_sev env strict a ety hty hder hcfg hagg qs hne hok (by rw [hacc]; decide) l sk after ha d rest hd
+  rw [hacc] at h
+  exact ⟨sk', hsk, h⟩
+
+/-- **wrong-kind element of an aggregate of INTEGER** (re-export of `ElemRdS.integer_junk`): a text that starts like no
+    integer and holds no `,` `)` `;` where an element must stand: unset, WARNING, the loop goes on behind it -/
+theorem C03_wrong_kind_integer_element_detected {F} (env : Env F) (hcfg : env.lex.criSkipsComments = true)
+    (hagg : env.cfg.aggrSkipsComments = true) (j0 : Byte) (js : List Byte) (hj0s : isSpace j0 = false) (hj047 : j0 ≠ 47)
+    (hj092 : j0 ≠ 92) (hj0d : isDigit j0 = false) (hj043 : j0 ≠ 43) (hj045 : j0 ≠ 45)
+    (hj : ∀ b ∈ j0 :: js, delimAt env.lex attrDelims b = false)
+    (hsemi : env.lex.criStopsAtSemicolon = true → ∀ b ∈ j0 :: js, b ≠ 59) (before : List Byte) (hb : Seps before) :
+    ElemRdS env .integer { tok := j0 :: js, before := before, after := [], v := .atom .unset } .warning :=
+  ElemRdS.integer_junk env hcfg hagg j0 js hj0s hj047 hj092 hj0d hj043 hj045 hj hsemi before hb
+
+/-- **undeclared item in an aggregate of ENUMERATION / BOOLEAN / LOGICAL** (re-export of `ElemRdS.enum_undeclared`) -/
+theorem C03_undeclared_enum_element_detected {F} (env : Env F) (hcfg : env.lex.criSkipsComments = true)
+    (hagg : env.cfg.aggrSkipsComments = true) (ty : ElemTy) (het : EnumTy ty) (name : List Byte) (hne : name ≠ [])
+    (hname : name.all pw = true) (hfind : findName (enumKindOf ty).table (name.map toUpper) = none)
+    (before after : List Byte) (hb : Seps before) (ha : Seps after) :
+    ElemRdS env ty { tok := 46 :: (name ++ [46]), before := before, after := after, v := .atom .unset } .warning :=
+  ElemRdS.enum_undeclared env hcfg hagg ty het name hne hname hfind before after hb ha
 
 /-- tie: the source keeps what `CheckRemainingInput` reports behind a `$` (C09's repair is in) -/
 theorem C03_source_dollar_keeps_error : Generated.rwLexCfg.dollarKeepsError = true := by decide
